@@ -6,6 +6,7 @@ E3  assignments write back with assign_mut, bindings bind in the current scope
 E4  conditionally executed children are lowered on private copies of the environment and merged (protocol)
 E5  Env stores values; nothing outside env.rs reaches into it mutably
 E6  for-each bodies are lowered on the one shared environment, in order
+E7  call arguments are lowered before any parameter of the callee is bound (by-value, caller's scope)
 """
 from .. import mir, protocol
 from ..core import AnchorMissing, Finding, RuleResult
@@ -412,5 +413,38 @@ def rule_e6(ctx):
     return res
 
 
+def rule_e7(ctx):
+    res = RuleResult("E7", "call arguments are lowered in the caller's scope, before any parameter is bound")
+    f = C02.fn_of(ctx, C02.EXPR_COMPILE)
+    body = ctx.body(f["id"])
+    succ = body.pruned_succ({INNER: "FnCall"})
+    region = body.reachable([0], succ=succ)
+    if len(region) == len(body.reachable([0])):
+        raise AnchorMissing("E7: cannot isolate the FnCall arm")
+    args = []
+    for b in region:
+        t = body.term(b)
+        if t["k"] == "call" and C02._is_compile_call(ctx, t):
+            if any(r == SELF1 and tuple(p[:3]) == ("inner", "as FnCall", "1") for (r, p) in C02._receiver_paths(body, t)):
+                args.append(b)
+    binds = [b for b in region if body.term(b)["k"] == "call" and mir.callee(body.term(b)) == ENV_LET]
+    bodies = [b for b in region if body.term(b)["k"] == "call" and mir.callee(body.term(b)) == "compile::compile_block"]
+    if not args or not binds or not bodies:
+        raise AnchorMissing("E7: the FnCall arm does not lower arguments / bind parameters / lower the body (%d/%d/%d)" % (len(args), len(binds), len(bodies)))
+    late = [(bb, a) for bb in binds for a in args if body.path(bb, [a], succ=succ) is not None]
+    if late:
+        res.bad(Finding("E7", f["id"], "an argument is lowered after a parameter was bound",
+                        "a later argument can see (and be shadowed by) an earlier parameter of the callee: arguments are not evaluated in the caller's scope",
+                        body.term(late[0][1])["sp"]))
+    else:
+        res.ok({"arm": "FnCall", "verdict": "all %d argument lowering site(s) precede the %d parameter binding site(s)" % (len(args), len(binds))})
+    early = [bd for bd in bodies for bb in binds if body.path(bd, [bb], succ=succ) is not None]
+    if early:
+        res.bad(Finding("E7", f["id"], "the callee body is lowered before its parameters are bound", "a parameter binding can follow the body", body.term(early[0])["sp"]))
+    else:
+        res.ok({"arm": "FnCall", "verdict": "parameters are bound before the body is lowered"})
+    return res
+
+
 def run(ctx):
-    return ctx.run_rules([rule_e1, rule_e2, rule_e3, rule_e4, rule_e5, rule_e6])
+    return ctx.run_rules([rule_e1, rule_e2, rule_e3, rule_e4, rule_e5, rule_e6, rule_e7])
